@@ -196,6 +196,9 @@ def fastLitHisto (ring : Bytes) (mask : Nat) : List Cmd → Nat → List Nat →
     fastLitHisto ring mask cs ((pos + copyLen c) % two64) h'.data ((n + c.insertLen) % two64)
 
 /-- `store_meta_block_fast(…)` with `params.log_meta_block = false`.
+The static command / distance codes are used for `n_commands <= 128 && num_distance_symbols <=
+kStaticDistanceCodeDepth.len()` (the second conjunct is the fix of the large-window panic, see
+`/verif/proposed/fast-static-distance-large-window.md`).
 `Log2FloorNonZero(u64::from(num_distance_symbols) - 1) + 1`: the subtraction underflows for an
 alphabet size of 0 (panic under debug semantics). -/
 def storeMetaBlockFast (ring : Bytes) (start length mask : Nat) (isLast : Bool) (distAlphabet : Nat)
@@ -205,7 +208,7 @@ def storeMetaBlockFast (ring : Bytes) (start length mask : Nat) (isLast : Bool) 
   let distanceAlphabetBits := log2Floor (distAlphabet - 1) + 1
   let w ← storeCompressedMetaBlockHeader isLast length w
   let w ← writeBits 13 0 w
-  let w ← (if cmds.length ≤ 128 then do
+  let w ← (if cmds.length ≤ 128 ∧ distAlphabet ≤ kStaticDistanceCodeDepth.length then do
       let (histogram, numLiterals) ← fastLitHisto ring mask cmds start (List.replicate 256 0) 0
       let (litDepth, litBits, w) ← buildAndStoreHuffmanTreeFast histogram numLiterals 8
         (List.replicate 256 0) (List.replicate 256 0) w
